@@ -20,6 +20,48 @@ from pyvc.interp import GenVal, LazyIter
 LISTINGS = ('kevents', 'formatted_kevents', 'traces', 'formatted_traces', 'callstacks', 'formatted_callstacks', 'os_log_events', 'formatted_logs')
 
 
+MUTATORS = ('append', 'extend', 'insert', 'pop', 'remove', 'clear', 'update', 'setdefault', 'popitem', 'sort', 'reverse', 'add', 'discard')
+
+
+def class_container_escapes(cls, name):
+    """is the class-level container `name` more than a read-only table?  True if some method of the class mutates it through
+    self/cls, hands it to a call, stores or returns it (then another holder may mutate it); lookups, `in`, `.get`, `.items`
+    and iteration leave it a constant.  Without the class's AST the answer is True."""
+    import ast
+    node = getattr(cls, 'node', None)
+    if node is None:
+        return True
+
+    def is_ref(n):
+        return isinstance(n, ast.Attribute) and n.attr == name and isinstance(n.value, ast.Name)
+    parents = {}
+    for n in ast.walk(node):
+        for c in ast.iter_child_nodes(n):
+            parents[id(c)] = n
+    for n in ast.walk(node):
+        if not is_ref(n):
+            continue
+        par = parents.get(id(n))
+        if isinstance(n.ctx, (ast.Store, ast.Del)):
+            continue                                    # rebinding the attribute itself (an instance attribute from then on)
+        if isinstance(par, ast.Subscript) and par.value is n:
+            if isinstance(par.ctx, (ast.Store, ast.Del)):
+                return True
+            gp = parents.get(id(par))
+            if isinstance(gp, ast.AugAssign) and gp.target is par:
+                return True
+            continue                                    # a lookup
+        if isinstance(par, ast.Attribute) and par.value is n:
+            gp = parents.get(id(par))
+            if isinstance(gp, ast.Call) and gp.func is par and par.attr in MUTATORS:
+                return True
+            continue                                    # .get / .items / .keys ...
+        if isinstance(par, ast.Compare) or isinstance(par, (ast.For, ast.comprehension)):
+            continue
+        return True                                     # argument of a call, right-hand side, return value, ...
+    return False
+
+
 def shared_parts(obj, depth=0):
     """what a new object shares: attributes (one level of nesting) that are registered module-level / default-argument
     objects, mutable containers declared at class level and not re-created by the constructor, and two attributes that are
@@ -39,7 +81,7 @@ def shared_parts(obj, depth=0):
                 if a in seen or a in fields:
                     continue
                 seen.add(a)
-                if isinstance(av, (PDict, PList, SymMap, SymList)):
+                if isinstance(av, (PDict, PList, SymMap, SymList)) and class_container_escapes(cls, a):
                     out.append('%s (mutable container declared at class level, never re-created per instance)' % a)
             bases = getattr(cls, 'bases', None) or []
             cls = bases[0] if bases and isinstance(bases[0], ClassVal) else None
@@ -137,10 +179,9 @@ def run_cli(run, tier):
     for ob, status, why in run.pending_cli:
         if out.get('violates'):
             run.violation(ob, {'request': {'kind': 'cli_case'}, 'native': out, 'solver_output': why}, True, what=out.get('what', ''))
-        elif status == 'refuted':
-            run.violation(ob, {'request': None, 'solver_output': why}, False, what=why)
         else:
-            run.undecide(ob, why)
+            # a structural clause that no longer matches is not a refutation by itself (the command may still do the same)
+            run.undecide(ob, why + ' (no failing command line found)')
 
 
 def run_data(run, tier):
@@ -276,7 +317,7 @@ def run_generic(run, tier):
         for ob, status, why in failures:
             if out.get('violates'):
                 run.violation(ob, {'request': {'kind': 'api_history_case'}, 'native': out, 'solver_output': why}, True, what=out.get('what', ''))
-            elif status == 'refuted':
-                run.violation(ob, {'request': None, 'solver_output': why}, False, what=why)
             else:
-                run.undecide(ob, why)
+                # shared or surviving state is not a refutation by itself (a counter, a complete-key cache): without a failing
+                # history the isolation argument is gone and the property is undecided
+                run.undecide(ob, why + ' (no failing history found)')
